@@ -23,6 +23,15 @@ CHECKS = {
  "C16": ("posix_iff: for every NUL-free byte string the parser transcription equals the independently written grammar; posix_cstr; posix_determined. Correspondence calls ParsePosixSpec twice with different pre-fill patterns to observe unwritten fields.", "proof + differential correspondence", "6 C16"),
  "C17": ("weekday_spec/yearday_spec/next/prev_weekday_spec for every valid date with any year (sweeps over the 400-year cycle lifted by periodicity); exhaustive 146097-day correspondence in thorough.", "proof + (exhaustive in thorough) correspondence", "6 C17"),
 }
+CHECKS.update({
+ "C13": ("Theorems over ALL schedules (induction over the event list of a small-step model of LoadTimeZone's critical sections): one_identity_per_name, schedule_independent, cache_monotone. Correspondence: every interleaving of Start/Release for k<=3 (quick) / k<=4 (thorough) threads over valid/invalid/fixed/UTC names executed on the real library through a parking factory and compared with the model; ThreadSanitizer stress with 4/16/64 free-running threads mixing loads, lookups, transitions, format and parse. Data-race freedom under the C++ memory model is observed (TSan), not proved.", "proof (partial: DRF observed) + exhaustive schedule correspondence + TSan", "6 C13"),
+ "C18": ("Theorems for ALL periods num/den, ALL tick counts and ALL rep widths: split = floor with remainder in [0,1s) (split_floor), join into coarser types = floor with failure exactly when the count does not fit (join_floor, join_seconds_exact), femtosecond conversion truncates (femto_truncates). Correspondence on the panel of 12 duration types at every remainder class and at the representation limits, through lookup/convert/format/parse.", "proof + differential correspondence", "6 C18"),
+ "C19": ("Twelve decision-rule theorems over all names, environments and file-system oracles (NameRes.v); correspondence over the matrix TZDIR x TZ x LOCALTIME x names in child processes, with the file system entering through a measured oracle. Kernel file semantics are observed, not proved.", "proof (partial: kernel semantics via measured oracle) + configuration matrix", "6 C19"),
+ "C20": ("Theorems over ALL schedules: factory_on_caller, factory_not_for_fixed, factory_calls_bounded_partial; over all serial schedules: factory_once_sequential; and factory_once_refuted: the contract's 'only once' / 'serially' is FALSE of the code for two concurrent first loads of one name (known finding F7, exhibited on the real library by the parking harness for every such schedule).", "proof (incl. machine-checked refutation) + exhaustive schedule correspondence", "6 C20"),
+ "C07": ("Component inverses, each unbounded: parse(format64 v) = v for every int64 incl. INT64_MIN, two-digit fields, offsets (full-resolution modes lossless for |off|<24h; minute modes exactly when the offset has no seconds; refuted at 24h = finding F6), femtosecond fractions. Composition checked by correspondence: lossless formats generated from the boolean lossless_fmt x zones (real, synthetic, fixed) x extreme instants x femtosecond values, implementation format->parse vs model vs expected (t, fs).", "proof (component inverses) + differential correspondence of the composition", "6 C07"),
+ "C08": ("format_safe: for EVERY byte string as format, every oracle, every valid lookup result: no scratch-buffer overflow, table overrun, integer overflow or fuel exhaustion; format_lib_only: formats of literals, %% and the library-defined specifiers render exactly the documented text (no oracle involved); to_tm_spec. strftime itself is an oracle (real libc in the correspondence run). Correspondence: random/odd/dangling formats x zones x extreme instants under ASan+UBSan vs model and vs the token-wise spec.", "proof (partial: strftime is an oracle) + differential correspondence", "6 C08"),
+ "C09": ("parse_int_sound (never wraps, never over-reads, width respected), scan_range (every internally handled field within the ranges read from the source), scan_safe (the scanner never overflows or over-reads for ANY pair of byte strings and any oracle). The instant denoted is checked by correspondence against expectations computed from chosen field values by the calendar/zone spec, incl. leap second, offsets, limits and single-edit mutants.", "proof (scanner soundness/safety) + differential correspondence", "6 C09"),
+})
 NA = {}
 def main():
     checks = []
